@@ -122,11 +122,11 @@ def fmtPending : Option String → String
 def runCase (c : Case) (pending : Option String) (premiumDefault : Int) : Option String × String :=
   let env := c.env premiumDefault
   match parseRPCBatch { c.msg with markets := reorderMarkets c.marketOrder c.msg.markets } with
-  | .error e => (pending, s!"rej {e.name} pending={fmtPending pending}")
+  | .error e => (pending, s!"rej {e.kind} pending={fmtPending pending}")
   | .ok b =>
     let b := { b with matched := reorder c.visit b.matched }
     match orderMatchValidate env Rules.fixed b (UInt32.ofNat c.best) pending with
-    | (.error e, p) => (p, s!"rej {e.name} pending={fmtPending p}")
+    | (.error e, p) => (p, s!"rej {e.kind} pending={fmtPending p}")
     | (.ok _, p) => (p, s!"ok pending={fmtPending p}")
 
 def constsLine : String :=
